@@ -22,7 +22,7 @@ def cases(tier):
     out += [("binary_cat_g", "str", s) for s in ("t", "u", None)]
     out += [("binary_cat_declared", "cat", s) for s in ("Aaa", "a", None)]  # 'Aaa' is a declared category that no row has
     out += [("offset", form, rhs) for form in ("offset(z)", "offset(3)", "offset(2.5)", "offset(2 * z)", "offset(z + x)", "offset(-3)", "offset(2 * 3)", "offset(kk)", "offset(0)") for rhs in ("x", "x + f")]
-    out += [("prop_predict", form, None) for form in ("prop(s, n)", "prop(s, 9)", "p(s, n)", "proportion(s, n)", "prop(s, 3 * 3)", "prop(s, kk9)")]
+    out += [("prop_predict", form, None) for form in ("prop(s, n)", "prop(s, 9)", "p(s, n)", "proportion(s, n)", "prop(s, 3 * 3)", "prop(s, kk9)", "prop(s, trials=n)", "prop(successes=s, trials=n)", "prop(s, n * 1)", "prop(s, +n)")]
     out += [("prop_validate", vals, None) for vals in ("int_ok", "float_int_ok", "noninteger_s", "noninteger_n", "s_gt_n", "s_gt_const", "trials_str")]
     out += [("identity", e, None) for e in ("x", "x * z", "x + 2", "(x - z) * x", "-x")]
     al = [("B(f, 'a')", "binary(f, 'a')"), ("B(x, 2)", "binary(x, 2)"), ("standardize(x)", "scale(x)"), ("T(g, 't')", "C(g, Treatment('t'))"), ("T(g)", "C(g, Treatment)"),
@@ -188,7 +188,7 @@ def harness(env, case):
             except Exception as e:
                 env.fail("prop cannot be evaluated on a new frame", {"exc": type(e).__name__, "site": core.repo_site(e), "msg": str(e)[:120]})
                 return
-            want = t2 if ", n)" in a else np.array([9] * rows_new, dtype=object)
+            want = np.array([9] * rows_new, dtype=object) if ("9" in a or "3 * 3" in a) else t2
             env.prove(np.asarray(out).ndim >= 1 and np.asarray(out).shape[0] == rows_new, "prop at prediction: one entry per row of the new frame")
             env.prove_equal(np.asarray(out).reshape(-1), want, "prop reports the trials of the new frame at prediction")
         return
